@@ -377,6 +377,15 @@ func (s *wscenario) finish(base int) (op string, impl string) {
 	sort.Ints(pending)
 	leak := "-"
 	if closeState == "ret" {
+		// a second Close has nothing left to do: it returns (no panic, no wait)
+		again := make(chan struct{})
+		go func() { s.w.Close(); close(again) }()
+		select {
+		case <-again:
+		case <-time.After(watchdog()):
+			noteStuck()
+			s.rec.add("to/0")
+		}
 		n := settle(base, censusBound())
 		s.rec.add("lk/%d", n)
 		leak = strconv.Itoa(n)
